@@ -193,4 +193,33 @@ def monitor(ctx, extended=False):
                     break
                 prev = (r, vt)
                 r *= step
+    # dense sweeps of the carrier-liquid gradient over the full ranges of pipe diameter and line speed: a switch of friction formula inside the envelope
+    # (at some Reynolds number) shows as a step only between diameters or speeds a fraction of a percent apart - in particular in the low-Reynolds corner
+    # (smallest pipe, slowest flow, most viscous water)
+    waters = [(1.4e-6, 1.0), (0.8e-6, 1.03), (1.0508e-6, 1.0248103), (1.0068e-6, 0.9982)] + \
+             [(ctx.rng.uniform(0.8e-6, 1.4e-6), ctx.rng.uniform(0.99, 1.03)) for _ in range(ctx.n(1, 6))]
+    stepil = 1.0005 if not ctx.thorough else 1.0001
+    for nu, rhol in waters:
+        for vfix in [0.1, 0.1331, 0.2, 1.0, 10.0] + [ctx.rng.uniform(0.1, 10.0)]:
+            Dp_, prev = 0.1, None
+            while Dp_ <= 1.2:
+                ctx.count('evaluations')
+                il = Ho.fluid_head_loss(vfix, Dp_, 4.5e-5, nu, rhol)
+                if not il > 0 or (prev is not None and not il < prev[1]):
+                    ctx.violation(f'liquid gradient goes from {prev[1] if prev else None!r} to {il!r} when the pipe diameter rises from {prev[0] if prev else None!r} to {Dp_!r}',
+                                  {'vls': vfix, 'Dp': [prev[0] if prev else None, Dp_], 'nu': nu, 'rhol': rhol}, key='il')
+                    break
+                prev = (Dp_, il)
+                Dp_ *= stepil
+        for Dfix in [0.1, 0.12, 0.1524, 0.5, 1.2] + [ctx.rng.uniform(0.1, 1.2)]:
+            v_, prev = 0.1, None
+            while v_ <= 10.0:
+                ctx.count('evaluations')
+                il = Ho.fluid_head_loss(v_, Dfix, 4.5e-5, nu, rhol)
+                if not il > 0 or (prev is not None and not il > prev[1]):
+                    ctx.violation(f'liquid gradient goes from {prev[1] if prev else None!r} to {il!r} when the line speed rises from {prev[0] if prev else None!r} to {v_!r}',
+                                  {'vls': [prev[0] if prev else None, v_], 'Dp': Dfix, 'nu': nu, 'rhol': rhol}, key='il')
+                    break
+                prev = (v_, il)
+                v_ *= stepil
     ctx.stats['distinct_nontrivial'] = len(classes)
